@@ -58,6 +58,12 @@ Theorem C04_value_max_of_vertices_and_edges : forall (G : graph) (s : simplex),
 Proof. exact fval_with_vertices. Qed.
 Print Assumptions C04_value_max_of_vertices_and_edges.
 
+(* [fval] of a clique with at least two vertices is the least upper bound (= the maximum) of the values of its edges *)
+Theorem C04_value_is_largest_edge_value : forall (G : graph) (m : V) (s : simplex), ssortedb s = true -> (2 <= length s)%nat ->
+  (fval G s <= m <-> forall a b, In a s -> In b s -> a < b -> ew G a b <= m).
+Proof. exact fval_le_iff. Qed.
+Print Assumptions C04_value_is_largest_edge_value.
+
 (* A4: Rips_complex (points or distance matrix, through [dist]) = flag complex of the graph of the pairs within the
    threshold = vertex sets of diameter <= thr with the diameter as value *)
 Theorem C04_threshold_graph_flag : forall n dist thr d s, flag (prox_graph n dist thr) d s = rips_spec n dist thr d s.
